@@ -47,6 +47,9 @@ class PW:
         self.func_calls = 0
         self.retry_calls = 0
         self.events = []
+        self.events_at = []  # number of breaker-produced events when each one was emitted
+        self.produced = []  # (event, state) for every transition / rejection the breaker announced, in order
+        self.hook_died = False
         self.final = None
         self.classifier_result = None
         self.bstate = it.fresh_enum(self.cs, "bstate")
@@ -120,6 +123,8 @@ def install(it):
                 allowed, event = True, None
         w.admitted = allowed
         w.took_probe = allowed and z3.is_true(z3.simplify(w.bstate.t == w.S("HALF_OPEN")))
+        if event is not None:
+            w.produced.append((event, w.bstate))
         return Obj(dec, {"allowed": allowed, "state": w.bstate, "event": event}, frozen=True)
 
     def record(kind):
@@ -138,12 +143,15 @@ def install(it):
                 w.probe = z3.BoolVal(False)
                 if kind == "success":
                     w.bstate = it_.enum_member(w.cs, "CLOSED")
+                    w.produced.append(("circuit_closed", w.bstate))
                     return "circuit_closed"
                 w.bstate = it_.enum_member(w.cs, "OPEN")
+                w.produced.append(("circuit_opened", w.bstate))
                 return "circuit_opened"
             if kind == "failure" and p.branch(w.bstate.t == w.S("CLOSED")):
                 if p.choose(2, "threshold-reached") == 1:
                     w.bstate = it_.enum_member(w.cs, "OPEN")
+                    w.produced.append(("circuit_opened", w.bstate))
                     return "circuit_opened"
             return None
 
@@ -159,9 +167,11 @@ def install(it):
     def emit_breaker_event(it_, fv, args, kwargs, node):
         w = PWof(it_)
         w.events.append((kwargs["event"], kwargs["state"], kwargs["klass"]))
+        w.events_at.append(len(w.produced))
         any_hook = z3.Or(z3.Not(T(it_.is_none(kwargs["on_metric"]))), z3.Not(T(it_.is_none(kwargs["on_log"]))))
         if it_.path.branch(any_hook):
             if it_.path.choose(2, "breaker-event-hook-baseexception") == 1:
+                w.hook_died = True
                 e = any_exc(it_, "hook")
                 it_.path.assume(z3.Not(it_.lattice.isinstance_cond(e.cls_t, Exception)))
                 raise PyRaise(e)
@@ -302,6 +312,15 @@ def t_entry(it, flavour, kind, with_retry):
         recs = w.records
         n = len(recs)
         lat = it.lattice
+        if with_breaker and not w.hook_died:
+            # C14: every transition / rejection the breaker announces is reported, once, in order, before the next one is produced,
+            # with the state the breaker was in when it announced it
+            same_names = [str(ev[0]) if isinstance(ev[0], str) else ev[0] for ev in w.events] == [e for e, _ in w.produced]
+            p.oblige(f"{key}/C14/every-breaker-event-is-reported-once-in-order", same_names and w.events_at == list(range(1, len(w.produced) + 1)),
+                     prop="C14", detail={"reported": [str(ev[0]) for ev in w.events], "announced": [e for e, _ in w.produced]})
+            if same_names:
+                p.oblige(f"{key}/C14/breaker-event-carries-the-state-at-announcement",
+                         z3.And([T(it.eq(ev[1], st)) for ev, (_, st) in zip(w.events, w.produced)] + [z3.BoolVal(True)]), prop="C14")
         COE = it.tree.cls("redress.errors:CircuitOpenError")
         # ---------------- not admitted
         preflight_abort = (not with_retry) and getattr(w, "abort_answer", None) is not None and w.allow_calls == 0 and w.func_calls == 0
